@@ -79,9 +79,11 @@ def replay(path):
 
 MANIFEST = dict(
     category="proof",
-    technique="Lean 4 theorem validate_iff_conforms (mutual induction over schemas) + differential correspondence",
+    technique="Lean 4 theorem validate_iff_conforms (mutual induction over schemas) + differential correspondence"
+              " + validator translator (check programs extracted from the source, model = interpreter proved for all inputs)",
     text="Theorem: for every schema and value the model validator returns no errors iff Conforms holds, where Conforms is "
          "the declarative meaning of a schema written from the property text; tie: verdicts of model and code compared on "
-         "generated cases every run; search: an independent Python Conforms against the real validate.",
+         "generated cases every run; search: an independent Python Conforms against the real validate."
+         " Translator: the statement sequences of the scalar Validator.visit_* methods and of the container preludes are extracted from the source on every run (Gen/ValidatorProg.lean) and validateScalar_eq_extracted / listPrelude_eq_extracted / validateP_list_prelude prove the hand model equal to the interpreter on them for every input. Source pins: the normalised text of every anchor file is compared with the text the model was last validated against; a changed file is a broken obligation (no-failing-input-found unless the search finds an input).",
     note="Trusted: Lean kernel + standard axioms, the hand model (tied by sampling), codec, CPython re.search (table), "
          "executable IEEE rounding in the driver.")
